@@ -53,6 +53,16 @@ theorem C03_pointer_target_witness :
     encode (.ptr (.uint 2)) (.some (.n 5)) ⟨true, false⟩ = .err := by
   decide
 
+/-- Byte-array bounds are checked by the validating decoder as by the validating encoder (fix
+eec6277), so a byte array registered with bounds that exclude its own length is simply unusable
+with validation — and no longer a counterexample to canonicity (`wf` does not mention it). -/
+theorem C03_bytearray_bounds_example :
+    (Ty.byteArr 4 none 0 2).wf = true ∧
+    decode (.byteArr 4 none 0 2) [1, 2, 3, 4] ⟨true, false⟩ = .err ∧
+    encode (.byteArr 4 none 0 2) (.x [1, 2, 3, 4]) ⟨true, false⟩ = .err ∧
+    decode (.byteArr 4 none 0 2) [1, 2, 3, 4] ⟨false, false⟩ = .ok (.x [1, 2, 3, 4], 4) := by
+  decide
+
 /-! ## Layout -/
 
 theorem leBytes_getElem? (w n i : Nat) :
